@@ -86,6 +86,16 @@ def gen_lines(rng, n):
         out.append("WN %d %d" % (rclock(2), rdelta()))
     for _ in range(n // 6):
         out.append("TO %d %d %d %d" % (rbase(), rclock(1), rclock(1), rclock(2)))
+    # time passes between two readings of a clock: deadlines within a few steps of the reading, on every clock
+    for _ in range(n // 6):
+        nu, nm, nw = rclock(1), rclock(1), rclock(2)
+        step = rng.choice([1, 7, 40, 1000, 10 ** 6])
+        off = rng.below(6 * step) - 2 * step
+        k = rng.below(3)
+        if k == 0: t = max(1, min(MAXV, nu + off))
+        elif k == 1: t = B63 + max(0, min(MAXV, nm + off))
+        else: t = M - max(3, min(MAXV, nw + off))
+        out.append("TOS %d %d %d %d %d" % (t, nu, nm, nw, step))
     # the absolute deadline a POSIX-semaphore wait is given: times around the clock reading, on every clock
     for _ in range(n // 6):
         nu, nm, nw = rclock(1), rclock(1), rclock(2)
@@ -151,6 +161,17 @@ def oracle_T(line, out):
         if v <= now:
             return None if r <= nw else "a %s-clock time that is already past becomes a wait of %d ns (deadline %d, wall clock now %d)" % (c, r - nw, r, nw)
         return None if r == nw + (v - now) else "a wait until a %s-clock time %d ns ahead is given %d ns" % (c, v - now, r - nw)
+    if f[0] == "TOS":
+        # "waiting until a time that is already past does not block", with time passing while the time-out is computed: the
+        # relative time-out never exceeds what was left on the time's own clock when the call began
+        t, nu, nm, nw, step = map(int, f[1:])
+        c, v = decode(t, nw)
+        if t == FOREVER or v is None or not (1 <= nu <= MAXV and 1 <= nm <= MAXV and 2 <= nw <= MAXV):
+            return None
+        now = {"up": nu, "mono": nm, "wall": nw}[c]
+        if c != "wall" and v == 0: v = now
+        left = max(0, v - now)
+        return None if r <= left else "the time-out for a %s-clock time %d ns ahead is %d ns (the clock moved on by %d ns between two readings)" % (c, left, r, step)
     if f[0] == "WT":
         sec, ns, d = map(int, f[1:])
         b = sec * 10 ** 9 + ns
